@@ -165,15 +165,23 @@ pub fn emf_public_path(st: &mut ESt) {
             }
         }
         for (k, expect_w) in cases {
-            for low in [0u64, 0x7FF] {
+            // the generator handed over directly, and through the library's `DefaultRng<R>` adapter
+            // (the route of `with_sampling()`, there over the thread's real generator)
+            for (low, through_adapter) in [(0u64, false), (0x7FF, false), (0x7FF, true)] {
                 let script = Script::default();
                 script.set_f64_draw(k, low);
-                let mut f = Emf::all_validations("NS".into(), vec![vec![]]).with_sampling_and_rng(script.clone());
                 let mut out = Vec::new();
-                let res = f.format_with_sample_rate(&entry, &mut out, rate);
+                let res = if through_adapter {
+                    crate::script::TLS_SCRIPT.with(|s| *s.borrow_mut() = script.clone());
+                    let mut f = Emf::all_validations("NS".into(), vec![vec![]]).with_sampling_and_rng(metrique_writer::sample::DefaultRng::<crate::script::TlsScript>::default());
+                    f.format_with_sample_rate(&entry, &mut out, rate)
+                } else {
+                    let mut f = Emf::all_validations("NS".into(), vec![vec![]]).with_sampling_and_rng(script.clone());
+                    f.format_with_sample_rate(&entry, &mut out, rate)
+                };
                 st.formats += 1;
                 let text = String::from_utf8_lossy(&out).to_string();
-                let replay = |extra: Value| json!({"part": "emf-public-path", "rate": rate_json(rate), "draw": format!("{k}/2^53"),
+                let replay = |extra: Value| json!({"part": "emf-public-path", "rate": rate_json(rate), "draw": format!("{k}/2^53"), "generator_through_DefaultRng_adapter": through_adapter,
                     "split": split.map(|(n, a, c)| json!({"n": n.to_string(), "alpha": format!("{a:e}"), "draws_selecting_n": c.to_string()})),
                     "expected_weight": expect_w.to_string(), "output": text, "detail": extra});
                 if let Err(e) = res {
